@@ -5,6 +5,8 @@
 //
 //	ms <op>...   ops: b | a<k> | r<k> | fa | f:<id,..> | m:<id,..> | s:<id,..> | c
 //	tx <op>...   ops: N | T<j>:<m> | Z<j>:<m> | C<j> | R<j> | L<j>
+//	sx <op>...   real sidx: w | fa | pm:<id,..> | ps:<id,..> | cm | rb | a<k> | r<k>
+//	ss <op>...   real stream tsTable: w<segment id> | ff (flusher step) | a<k> | r<k> | c
 //	st <writers> <readers> <batches>   concurrent smoke run with the real loops (supporting exploration only)
 //
 // Output: one dump per op, joined by " | ".
@@ -19,9 +21,11 @@ import (
 	"strings"
 	"sync/atomic"
 
+	"github.com/apache/skywalking-banyandb/banyand/internal/sidx"
 	"github.com/apache/skywalking-banyandb/banyand/internal/snapshot"
 	"github.com/apache/skywalking-banyandb/banyand/internal/verifdrv/drv"
 	"github.com/apache/skywalking-banyandb/banyand/measure"
+	"github.com/apache/skywalking-banyandb/banyand/stream"
 )
 
 var (
@@ -112,6 +116,134 @@ func runMeasure(ops []string) string {
 				res = "closed "
 			} else {
 				v.Sync(parseIDs(op[2:]))
+			}
+		default:
+			return "bad-op"
+		}
+		out = append(out, res+v.Dump())
+	}
+	return strings.Join(out, " | ")
+}
+
+// ---- real sidx: write / flush / prepare-merge / commit / rollback / pin / query-through-a-held-snapshot ----
+
+func runSidx(ops []string) string {
+	caseNo++
+	root := filepath.Join(scratch, fmt.Sprintf("x%d", caseNo))
+	if err := os.MkdirAll(root, 0o755); err != nil {
+		panic(err)
+	}
+	defer os.RemoveAll(root)
+	v := sidx.VC05SidxNew(root)
+	defer func() {
+		if r := recover(); r != nil {
+			panic(r)
+		}
+		v.Shutdown()
+	}()
+	var out []string
+	for _, op := range ops {
+		res := ""
+		busy := v.Pending()
+		switch {
+		case op == "w" || op == "fa" || strings.HasPrefix(op, "pm:") || strings.HasPrefix(op, "ps:"):
+			// the single introducer never interleaves another publication with a prepared one
+			if busy {
+				res = "busy "
+				break
+			}
+			switch {
+			case op == "w":
+				v.Write()
+			case op == "fa":
+				v.FlushAll()
+			case strings.HasPrefix(op, "pm:"):
+				if !v.PrepareMerge(parseIDs(op[3:])) {
+					res = "none "
+				}
+			default:
+				if !v.PrepareSync(parseIDs(op[3:])) {
+					res = "none "
+				}
+			}
+		case op == "cm":
+			if !busy {
+				res = "none "
+			} else {
+				v.Commit()
+			}
+		case op == "rb":
+			if !busy {
+				res = "none "
+			} else {
+				v.Rollback()
+			}
+		case strings.HasPrefix(op, "a"):
+			k, _ := strconv.Atoi(op[1:])
+			if !v.Acquire(k) {
+				res = "nil "
+			}
+		case strings.HasPrefix(op, "r"):
+			k, _ := strconv.Atoi(op[1:])
+			if !v.Release(k) {
+				res = "nil "
+			}
+		default:
+			return "bad-op"
+		}
+		out = append(out, res+v.Dump())
+	}
+	return strings.Join(out, " | ")
+}
+
+// ---- real stream tsTable: write with segment ids, flusher step (mergeMemParts per segment + flush), pin ----
+
+func runStream(ops []string) string {
+	caseNo++
+	root := filepath.Join(scratch, fmt.Sprintf("r%d", caseNo))
+	if err := os.MkdirAll(root, 0o755); err != nil {
+		panic(err)
+	}
+	defer os.RemoveAll(root)
+	v := stream.VC05StreamNew(root)
+	defer func() {
+		if r := recover(); r != nil {
+			panic(r)
+		}
+		v.Shutdown()
+	}()
+	var out []string
+	for _, op := range ops {
+		res := ""
+		switch {
+		case op == "c":
+			if v.Closed() {
+				res = "closed "
+			} else {
+				v.Close()
+			}
+		case op == "ff":
+			if v.Closed() {
+				res = "closed "
+			} else {
+				v.FlusherStep()
+			}
+		case strings.HasPrefix(op, "w"):
+			seg, _ := strconv.ParseInt(op[1:], 10, 64)
+			if v.Closed() {
+				res = "closed "
+			} else {
+				v.Write(seg)
+			}
+		case strings.HasPrefix(op, "a"):
+			k, _ := strconv.Atoi(op[1:])
+			if !v.Acquire(k) {
+				res = "nil "
+			}
+		case strings.HasPrefix(op, "r"):
+			k, _ := strconv.Atoi(op[1:])
+			if !v.Release(k) {
+				res = "nil "
 			}
 		default:
 			return "bad-op"
@@ -242,6 +374,10 @@ func handle(f []string) string {
 		return runMeasure(f[1:])
 	case "tx":
 		return runTxn(f[1:])
+	case "sx":
+		return runSidx(f[1:])
+	case "ss":
+		return runStream(f[1:])
 	case "st":
 		// supporting exploration: st <writers> <readers> <batches per writer>
 		if len(f) != 4 {
